@@ -54,16 +54,21 @@ def parse_rows(out: str):
 def _run_spec(rec, D, pats, spec):
     """spec -> (trace, info) | None.  spec kinds: 'cat' (catalogue case on a corpus program), 'abs' (model row)."""
     from harness import layouts
-    from corpus.programs import PROGRAMS
+    PROGRAMS = D.programs()
     if spec['kind'] == 'cat':
-        src = layouts.variant(PROGRAMS[spec['prog']], spec['variant'], spec['lseed'])
-        return D.run_case(rec, spec['tid'], src, spec['p'], D.TEMPLATES[spec['t']], spec['cat'], spec['cfg'], pats,
-                          repl_as_fst=spec.get('fst', False))
+        for prog in spec['progs']:       # first candidate program in which the pattern occurs
+            src = layouts.variant(PROGRAMS[prog], spec['variant'], spec['lseed'])
+            r = D.run_case(rec, spec['tid'], src, spec['p'], D.TEMPLATES[spec['t']], spec['cat'], spec['cfg'], pats,
+                           repl_as_fst=spec.get('fst', False))
+            if r is not None:
+                spec['prog'] = prog
+                return r
+        return None
     row = spec['row']
     src = 'x = ' + D.conc(D.parse_enc(row['t0'])) + '\n'
     tmpl = D.conc(D.parse_enc(row['tmpl']))
     cfg = {'nested': row['nested'], 'count': row['count'], 'loop': row['loop'], 'on': row['on'], 'back': row['back'],
-           'cb': True}
+           'cb': True, 'docstr': True}
     r = D.run_case(rec, spec['tid'], src, 'abs', tmpl, 'expr', cfg, {'abs': lambda: D.abstract_pattern(row['pat'])})
     if r is None:
         return None
@@ -106,8 +111,8 @@ def _shard(args):
 def catalogue_specs(ctx, cases, n_target, base):
     """Seeded sample of the TLC-generated case table x corpus programs x layout variants; every (pattern, template) pair
     of the table is visited round-robin so that all slot position classes are exercised in every run."""
-    from corpus.programs import PROGRAMS
-    from harness import layouts
+    from harness import layouts, c18_driver
+    PROGRAMS = c18_driver.programs()
     rng = random.Random(ctx.seed * 7919 + 18)
     by_pair = {}
     for c in cases:
@@ -122,7 +127,7 @@ def catalogue_specs(ctx, cases, n_target, base):
         i += 1
         c = rng.choice(by_pair[pair])
         specs.append({'kind': 'cat', 'tid': base + len(specs) + 1, 'p': c['p'], 't': c['t'], 'cat': c['cat'],
-                      'cfg': c['s'], 'prog': rng.randrange(len(PROGRAMS)), 'variant': rng.randrange(layouts.N_VARIANTS),
+                      'cfg': c['s'], 'progs': rng.sample(range(len(PROGRAMS)), 8), 'variant': rng.randrange(layouts.N_VARIANTS),
                       'lseed': rng.randrange(1 << 20), 'fst': rng.random() < 0.15})
     return specs
 
@@ -198,7 +203,7 @@ def run(ctx):
                         'function `arguments`, ExceptHandler / match_case / comprehension slot forms, string-interior '
                         'slots, __FSO_/__FSS_ overrides are not covered']
     quick = ctx.quick
-    n_cat, n_abs = (1100, 300) if quick else (26000, 6000)
+    n_cat, n_abs = (900, 250) if quick else (26000, 6000)
 
     os.environ['OUT_FILE'] = os.path.join(__import__('harness.tlc', fromlist=['x']).scratch(), 'c18cases.json')
     ctx.model('TemplateCases', 'TemplateCases', workers=1, coverage=False, heap='1g')
@@ -216,7 +221,7 @@ def run(ctx):
         try:
             mc['r'] = ctx.model('TemplateMC', 'TemplateMC' if quick else 'TemplateMC_thorough',
                                 required=('Pick', 'Descend', 'SkipNode', 'Subst', 'LoopSubst', 'Stop'),
-                                workers=8 if quick else 12, heap='4g' if quick else '10g', timeout=3000)
+                                workers=8 if quick else 12, heap='2g' if quick else '8g', timeout=3000)
         except BaseException as e:  # noqa: BLE001
             mc['e'] = e
     th = threading.Thread(target=model)
@@ -249,6 +254,8 @@ def replay(ctx, path):
     with open(path) as f:
         rp = json.load(f)
     spec = dict(rp['spec'], tid=1)
+    if 'prog' in spec:
+        spec['progs'] = [spec['prog']]
     res = _shard((0, [spec]))
     if 'error' in res:
         raise common.Machinery(res['error'])
@@ -263,3 +270,66 @@ def replay(ctx, path):
             print(info['post_src'])
             print('verdict', sorted(v['bad']))
     return ctx.finish()
+
+
+def selftest(ctx):
+    """Binding demonstration (DESIGN 2.9a): corrupt one recorded field of accepted traces; TLC must reject each corrupted
+    trace and name the clause that the corrupted field belongs to, and keep accepting the untouched ones."""
+    import copy
+    cfg = {'nested': False, 'count': 0, 'loop': 0, 'on': 'enter', 'back': False, 'cb': True, 'docstr': True}
+    specs = [{'kind': 'cat', 'tid': i + 1, 'p': p, 't': t, 'cat': c, 'cfg': cfg, 'progs': list(range(40)), 'variant': 0,
+              'lseed': 1} for i, (p, t, c) in enumerate([('call', 'e_call', 'expr'), ('if_', 's_if_swap', 'stmt'),
+                                                        ('binop', 'e_swap_lr', 'expr'), ('ret', 's_try', 'stmt')])]
+    res = _shard((0, specs))
+    if 'error' in res:
+        raise common.Machinery(res['error'])
+    base = res['batch']
+    clean = ctx.validate(base, module='TemplateTrace', cfg='TemplateTrace', heap='3g')
+    if any(v['bad'] for v in clean.values()):
+        raise common.Machinery(f'selftest: uncorrupted traces rejected: {clean}')
+
+    def corrupt(fn):
+        b = copy.deepcopy(base)
+        fn(b['traces'])
+        return b
+
+    def c_tree(trs):       # claim that the call changed nothing: final live tree := initial live tree
+        d = trs[0]['steps'][-1]
+        d['post']['liveS'], d['post']['liveP'] = trs[0]['init']['liveS'], trs[0]['init']['liveP']
+
+    def c_count(trs):      # one substitution more than performed
+        trs[1]['steps'][-1]['total'] += 1
+
+    def c_token(trs):      # a token before the first substituted node differs after the event
+        e = trs[2]['steps'][0]
+        e['post']['toks'][0][0] += 1
+
+    def c_line(trs):       # the last line of the file differs after the event although the node is far above
+        e = trs[3]['steps'][0]
+        e['post']['lines'][-1][0] += 1
+        for st in trs[3]['steps'][1:]:
+            if 'pre' in st:
+                st['pre']['lines'][-1][0] += 1
+
+    def c_capture(trs):    # a capture path of the first event points to another node
+        e = trs[2]['steps'][0]
+        cap = e['m']['caps'][0]
+        cap['el'][0][0]['p'] = e['m']['caps'][1]['el'][0][0]['p']
+
+    expect = [('tree', c_tree, 1, {'TemplateRel', 'Final.Chain'}), ('count', c_count, 2, {'Counts.total', 'Counts.static'}),
+              ('token', c_token, 3, {'Event.OutsideTokens'}), ('line', c_line, 4, {'Event.OutsideLines'}),
+              ('capture', c_capture, 3, {'Event.TemplateRel', 'Event.RefAgree'})]
+    ok = True
+    for name, fn, tid, clauses in expect:
+        verd = ctx.validate(corrupt(fn), module='TemplateTrace', cfg='TemplateTrace', heap='3g')
+        got = {c for _, c, _ in verd[tid]['bad']}
+        others = {t: v['bad'] for t, v in verd.items() if t != tid and v['bad']}
+        good = clauses <= got and not others
+        ok &= good
+        print(f'selftest corrupt {name}: trace {tid} rejected with {sorted(got)} (expected at least {sorted(clauses)}); '
+              f'other traces {"clean" if not others else others} -> {"OK" if good else "FAILED"}')
+    ctx.evals += len(expect)
+    if not ok:
+        raise common.Machinery('selftest failed')
+    print('selftest passed')
+    return 0
